@@ -125,6 +125,8 @@ Record dobs := mkd { d_v : N; d_idx : Z; d_root : N; d_valid : bool }.
 
 Record label := mkl {
   l_lock : lockt; l_ent : entrance; l_items : list item; l_nsubs : nat;
+  l_fault : bool;   (* env fault: a beacon-node lookup the component made while handling this call (spec, domain,
+                       genesis domain, fork schedule) failed, timed out, or was aborted by the caller *)
   l_err : option gerr; l_calls : list (list dobs) }.
 
 Definition item_matches (e : entrance) (it : item) (d : dobs) : bool :=
@@ -152,7 +154,7 @@ Fixpoint nodupb (l : list N) : bool :=
 Definition own_idx_ok (e : entrance) (items : list item) : bool :=
   match e with VApi self => forallb (fun it => Z.eqb (i_idx it) self) items | Peer _ _ => true end.
 
-Definition accepts (l : label) : bool :=
+Definition accepts_nf (l : label) : bool :=
   let lock := l_lock l in let e := l_ent l in
   nodupb (map fst lock) && own_idx_ok e (l_items l) && Nat.eqb (length (l_calls l)) (l_nsubs l) &&
   let os := map (item_outcome lock e) (l_items l) in
@@ -176,6 +178,14 @@ Definition accepts (l : label) : bool :=
       else normal
   end.
 
+(* Under an env fault the decision is Reject: a verification that could not complete lets nothing
+   in, whatever the submission was; any error class may be reported. *)
+Definition accepts (l : label) : bool :=
+  if l_fault l
+  then Nat.eqb (length (l_calls l)) (l_nsubs l) && all_empty (l_calls l)
+       && match l_err l with Some _ => true | None => false end
+  else accepts_nf l.
+
 (* ---- LTS form ---- *)
 Definition state := unit.
 Definition init : state := tt.
@@ -197,12 +207,16 @@ Definition ent_ok (e : entrance) (d : dobs) : bool :=
   | Peer g _ => gate_ok g
   end.
 
-Definition monitor1 (l : label) : bool :=
+Definition monitor1_nf (l : label) : bool :=
   let lock := l_lock l in let e := l_ent l in
   (* everything delivered verifies and is a submitted item that is valid per the rule *)
   forallb (fun call => forallb (fun d =>
      d_valid d && ent_ok e d && existsb (fun it => item_matches e it d && item_ok lock e it) (l_items l)) call) (l_calls l)
   (* all-or-nothing: if anything at all was delivered, every submitted item is valid per the rule *)
   && (all_empty (l_calls l) || forallb (item_ok lock e) (l_items l)).
+
+(* ... and nothing is delivered by a call during which verification could not have completed *)
+Definition monitor1 (l : label) : bool :=
+  monitor1_nf l && (negb (l_fault l) || all_empty (l_calls l)).
 
 Definition monitor (ls : list label) : bool := forallb monitor1 ls.
